@@ -11,6 +11,7 @@ import (
 	"reservoir/logging/early"
 	"reservoir/utils/assertedpath"
 	"reservoir/utils/bytesize"
+	"sync"
 )
 
 var (
@@ -59,6 +60,7 @@ func appendLogFileWriter(cfg *config.Config, writers *[]io.Writer) io.Writer {
 
 var initialized bool
 var subs config.ConfigSubscriber
+var levelMu sync.Mutex // serializes the handlers that follow the configured log level
 
 func SetLogLevel(level slog.Level) {
 	logLevel.Set(level)
@@ -95,8 +97,13 @@ func Init(cfg *config.Config) {
 	logLevel.Set(cfg.Logging.Level.Read())
 
 	// Subscribe to log level changes
-	subs.Add(cfg.Logging.Level.OnChange(func(newLevel slog.Level) {
+	subs.Add(cfg.Logging.Level.OnChange(func(slog.Level) {
+		// Notifications of quick successive changes can arrive in either order: follow the
+		// level that is configured now, not the one this notification carries.
+		levelMu.Lock()
+		newLevel := cfg.Logging.Level.Read()
 		logLevel.Set(newLevel)
+		levelMu.Unlock()
 		slog.Info("Log level changed by configuration", "new_level", newLevel)
 	}))
 
